@@ -1,6 +1,6 @@
 (* C18/ProofsTrueHC.v -- real-space and half-complex round trips with the true constants. *)
 From Coq Require Import ZArith Reals Lra Lia List Bool Arith.
-From Verif Require Import Base.Num Lib.Axis C18.Model C18.ProofsGrid C18.ProofsDFT C18.ProofsCx C18.ProofsFT
+From Verif Require Import Base.Num Lib.Axis Gen.FtFormulas C18.Model C18.ProofsGrid C18.ProofsDFT C18.ProofsCx C18.ProofsFT
   C18.ProofsTrue C18.ProofsHC.
 Import ListNotations.
 Local Open Scope R_scope.
@@ -42,7 +42,7 @@ Lemma kernel_true_nz_gen (a : Raxis) sh half k : (2 <= a_n a)%nat -> stride a <>
   (k < a_n (recip_axis 1%R a (Some sh) half))%nat ->
   kernel PI (sqrt (2 * PI)) cis_true (stride a) (freq (a_n a) (a_n (recip_axis 1%R a (Some sh) half)) sh k) <> 0.
 Proof.
-  intros Hn Hs Hk. unfold kernel. numR.
+  intros Hn Hs Hk. unfold kernel, pp_kernel. numR.
   pose proof (sinc_true_nz _ (freq_range_gen a sh half k Hn Hs Hk)) as Hsn.
   pose proof sqrt_2pi_pos as Hq.
   unfold Rdiv. repeat apply Rmult_integral_contrapositive_currified; try assumption.
@@ -90,7 +90,9 @@ Theorem dft_hc_roundtrip_true (shape axes : list nat) (x : list Cx) :
   (1 <= nth (last_axis axes) shape 0%nat)%nat -> length x = prodn shape -> Forall is_real x ->
   dft_inverse cis_true 1 true shape axes (dft_forward cis_true (-1) true shape axes x) = x.
 Proof.
-  intros. unfold dft_inverse, dft_forward.
+  intros.
+  rewrite (dft_forward_unfold cis_true) by (right; reflexivity).
+  rewrite (dft_inverse_unfold cis_true) by (left; reflexivity).
   apply (irfftn_rfftn cis_true cis_true_add cis_true_0 cis_true_2 cis_true_prim cis_true_conj); assumption.
 Qed.
 
@@ -98,20 +100,10 @@ Theorem rfft_roundtrip_true (x : list Cx) : Forall is_real x ->
   irfft1 cis_true (length x) (rfft1 cis_true x) = x.
 Proof. apply (irfft1_rfft1 cis_true cis_true_add cis_true_0 cis_true_2 cis_true_prim cis_true_conj). Qed.
 
-(* ---- what the status functions (validated against the code) say on the finding inputs ---- *)
+(* ---- what the status functions (validated against the code) say on the open finding's input ---- *)
 Lemma ft_hc_unshifted_status :
   exists (shifts : list bool),
     @ft_init_status R _ false [mk_axis 0 3 4; mk_axis 0 4 5] [0; 1]%nat shifts true false = SOk
-    /\ ft_inverse_status true false true true shifts = STypeErr
+    /\ ft_inverse_status true true shifts = STypeErr
     /\ ft_forward_status true true true shifts = SOtherErr.
 Proof. exists [false; true]. repeat split; reflexivity. Qed.
-Lemma ft_real_unshifted_status :
-  exists (shifts : list bool),
-    ft_inverse_status true true true false shifts = STypeErr /\ ft_inverse_status true false true false shifts = SOk.
-Proof. exists [false]. split; reflexivity. Qed.
-Lemma dft_inverse_status_examples :
-  dft_inverse_status true true true true false true [4]%nat [0]%nat = SValueErr
-  /\ dft_inverse_status true true true true false false [4]%nat [0]%nat = SValueErr
-  /\ dft_inverse_status true true false true true false [5]%nat [0]%nat = SValueErr
-  /\ dft_inverse_status true true false true true false [4]%nat [0]%nat = SOk.
-Proof. repeat split; reflexivity. Qed.
